@@ -42,6 +42,9 @@ RULE = (
     "distinct by content hash"
 )
 PARTIAL = [
+    "in-place operators (`+=` …) are not defined: Python falls back to `x = x + y` (a new object, operands untouched) — covered "
+    "by the binary cases; unary `-`, `abs`, `**` and reflected `+ - /` are absent (TypeError, sampled in `sc` cases); "
+    "BasisFunctionalData defines no arithmetic at all and its `==` is object identity (documented, not modelled)",
     "floating-point rounding of the results (model values are exact; compared at rtol 1e-9)",
     "non-finite *inputs* (inf/nan values as operands): == on them is only required to return a bool",
     "reflected operators with NumPy scalars / arrays on the left (`np.int64(2) * a`, `ndarray * a` are dispatched by "
@@ -744,6 +747,34 @@ def mv_cases(rng: Rng, n):
         yield dict(kind="mv", mode=rng.choice(["remove", "remove", "in"]), comps=comps, item=item, same=same, tag=tag)
 
 
+def mvop_cases(rng: Rng, n):
+    """The operators a multivariate object inherits from `UserList`: `+` (concatenation through the
+    constructor), `*` (repetition), `==` (list equality) — not arithmetic."""
+    for _ in range(n):
+        nobs = rng.choice([1, 2, 3])
+        cs = [rdata(rng, nobs=nobs) for _ in range(rng.randint(0, 3))]
+        mode = rng.choice(["add", "add", "mul", "eq", "eq"])
+        if mode == "add":
+            n2 = nobs if rng.random() < 0.7 else nobs + 1
+            ds = [rdata(rng, nobs=n2) for _ in range(rng.randint(0, 2))]
+            yield dict(kind="mvop", mode="add", cs=cs, ds=ds, aslist=rng.random() < 0.4)
+        elif mode == "mul":
+            yield dict(kind="mvop", mode="mul", cs=cs, k=rng.randint(-1, 3), reflected=rng.random() < 0.4)
+        else:
+            r = rng.random()
+            if r < 0.4:
+                ds = list(cs)
+            elif r < 0.6:
+                ds = cs[:-1] if cs else [rdata(rng, nobs=nobs)]
+            elif r < 0.8 and cs:
+                j = rng.randrange(len(cs))
+                ds = list(cs)
+                ds[j] = perturb(rng, cs[j], rng.choice(["tiny", "far", "2"]))[0]
+            else:
+                ds = list(reversed(cs))
+            yield dict(kind="mvop", mode="eq", cs=cs, ds=ds)
+
+
 def bin_cases(rng: Rng, n):
     for _ in range(n):
         a = rdata(rng)
@@ -904,6 +935,7 @@ def gen_cases(rng: Rng, tier):
     yield from bin_cases(rng, 130 * k)
     yield from derived_cases(rng, 45 * k)
     yield from decimal_cases(rng, 30 * k)
+    yield from mvop_cases(rng, 40 * k)
     yield from sc_cases(rng, 90 * k)
     yield from ident_cases(rng, 40 * k)
     yield from eq_cases(rng, 120 * k)
@@ -1125,9 +1157,36 @@ def run_mv(case):
     return out
 
 
+def run_mvop(case):
+    A, V, FD = _fd()
+    cs = [build(d) for d in case["cs"]]
+    m = FD.MultivariateFunctionalData(list(cs))
+    out = {}
+    try:
+        if case["mode"] == "add":
+            ds = [build(d) for d in case["ds"]]
+            other = ds if case.get("aslist") else FD.MultivariateFunctionalData(list(ds)) if len({_nobs(d) for d in ds}) <= 1 else ds
+            r = m + other
+            out.update(n=len(r.data), rtype=type(r).__name__, plain=[id(c) for c in r.data] == [id(c) for c in cs + ds],
+                       left_untouched=[id(c) for c in m.data] == [id(c) for c in cs])
+        elif case["mode"] == "mul":
+            r = case["k"] * m if case.get("reflected") else m * case["k"]
+            out.update(n=len(r.data), rtype=type(r).__name__, plain=[id(c) for c in r.data] == [id(c) for c in cs] * max(case["k"], 0))
+        else:
+            ds = [build(d) for d in case["ds"]]
+            r = m == FD.MultivariateFunctionalData(list(ds))
+            out.update(res=bool(r), rtype=type(r).__name__,
+                       plain=len(cs) == len(ds) and all(plain_eq(a, b) for a, b in zip(cs, ds)))
+    except Exception as e:  # noqa: BLE001
+        out.update(err=_ecls(e), msg=str(e)[:120])
+    return out
+
+
 def run_impl(case):
     common.use_repo()
     quiet()
+    if case["kind"] == "mvop":
+        return run_mvop(case)
     return {"bin": run_bin, "sc": run_sc, "ident": run_ident, "eq": run_eq, "mv": run_mv}[case["kind"]](case)
 
 
@@ -1156,6 +1215,18 @@ def model_lines(case, impl):
         if case["b"]["k"] == "X" or case["a"]["k"] == "X":
             return []
         return [" ".join(["eq"] + tok(case["a"]) + tok(case["b"]))]
+    if k == "mvop":
+        toks = ["mv" + case["mode"]]
+        if case["mode"] == "mul":
+            toks.append(str(case["k"]))
+        toks.append(str(len(case["cs"])))
+        for d in case["cs"]:
+            toks += tok(d)
+        if case["mode"] != "mul":
+            toks.append(str(len(case["ds"])))
+            for d in case["ds"]:
+                toks += tok(d)
+        return [" ".join(toks)]
     if k == "mv":
         toks = ["in" if case["mode"] == "in" else "rem", str(len(case["comps"]))]
         for d in case["comps"]:
@@ -1166,6 +1237,8 @@ def model_lines(case, impl):
 
 
 def parse_model(case, outs):
+    if case["kind"] == "mvop":
+        return dict(raw=outs[0])
     return parse_answer(outs[0])
 
 
@@ -1219,6 +1292,12 @@ def cmp_data(ri, rm, where="result"):
 def compare(case, impl, model):
     if "__crash__" in impl:
         return [f"implementation harness crashed: {impl['__crash__']} {impl.get('msg')} {impl.get('tb', '')[-300:]}"]
+    if case["kind"] == "mvop":
+        raw = model["raw"]
+        if raw.startswith("bad") or raw == "illformed":
+            return [f"model answered {raw!r}"]
+        got = ("error:" + impl["err"]) if "err" in impl else (("ok " + str(impl["n"])) if case["mode"] != "eq" else str(impl["res"]).lower())
+        return [] if got == raw else [f"multivariate {case['mode']}: impl {got} vs model {raw}"]
     if "bad" in model:
         return [f"model answered {model['bad']!r}"]
     k = case["kind"]
@@ -1264,6 +1343,18 @@ def oracle(case, impl):
                      msg=f"crash {impl['__crash__']}: {impl.get('msg')} {impl.get('tb', '')[-300:]}")]
     k = case["kind"]
     vs = []
+    if k == "mvop":
+        entry = {"add": "MultivariateFunctionalData.__add__", "mul": "MultivariateFunctionalData.__mul__", "eq": "MultivariateFunctionalData.__eq__"}[case["mode"]]
+        if "err" not in impl:
+            if impl.get("rtype") != ("bool" if case["mode"] == "eq" else "MultivariateFunctionalData"):
+                vs.append(dict(clause="membership", entry=entry, causes=["result_type"], msg=f"result is a {impl.get('rtype')}"))
+            if case["mode"] == "eq" and impl["res"] != impl["plain"]:
+                vs.append(dict(clause="eq_spec", entry=entry, causes=["wrong_verdict"], msg=f"== returned {impl['res']}, component-wise comparison says {impl['plain']}"))
+            if case["mode"] != "eq" and not impl["plain"]:
+                vs.append(dict(clause="membership", entry=entry, causes=["not_plain_list"], msg="the components of the result are not those of a plain list concatenation / repetition"))
+        elif case["mode"] == "eq":
+            vs.append(dict(clause="eq_total", entry=entry, causes=["raises_" + impl["err"]], msg=f"== raised {impl['err']}"))
+        return vs
     if k == "bin":
         entry = ENTRY[case["op"]]
         if case.get("respect") == "empty-irregular":
